@@ -67,6 +67,8 @@ struct GcCtxData {
     next_id: u32,
     roots: Vec<GcNode>,
     to_be_freed: Vec<GcNode>,
+    #[cfg(feature = "verif_hooks")]
+    registry: Vec<GcNode>,
 }
 
 impl Default for GcCtx {
@@ -82,6 +84,8 @@ impl GcCtx {
                 next_id: 0,
                 roots: Vec::new(),
                 to_be_freed: Vec::new(),
+                #[cfg(feature = "verif_hooks")]
+                registry: Vec::new(),
             })),
         }
     }
@@ -350,6 +354,14 @@ impl GcNode {
         deconstructor: DECONSTRUCTOR,
         trace: TRACE,
     ) -> GcNode {
+        #[cfg(feature = "verif_hooks")]
+        if crate::verif::enter_gc_node_new() {
+            // re-enter once to run the construction below, then register the result
+            let node = GcNode::new(gc_ctx, name, deconstructor, trace);
+            crate::verif::leave_gc_node_new();
+            gc_ctx.v_register(&node);
+            return node;
+        }
         GcNode {
             id: gc_ctx.make_id(),
             name,
@@ -439,7 +451,80 @@ impl GcNode {
     }
 
     pub fn trace<TRACER: FnMut(&GcNode)>(&self, mut tracer: TRACER) {
+        #[cfg(feature = "verif_hooks")]
+        crate::verif::count_trace_call();
+        #[cfg(feature = "verif_hooks")]
+        let mut tracer = |t: &GcNode| {
+            crate::verif::count_trace_edge();
+            tracer(t)
+        };
         let trace = self.data.trace.read();
         trace(&mut tracer);
+    }
+}
+
+#[cfg(feature = "verif_hooks")]
+impl GcCtx {
+    pub fn v_root_ids(&self) -> Vec<u32> {
+        self.with_data(|data: &mut GcCtxData| data.roots.iter().map(|n| n.id).collect())
+    }
+
+    pub fn v_to_be_freed_len(&self) -> usize {
+        self.with_data(|data: &mut GcCtxData| data.to_be_freed.len())
+    }
+
+    pub fn v_next_id(&self) -> u32 {
+        self.with_data(|data: &mut GcCtxData| data.next_id)
+    }
+
+    /// Every gc node created in this context so far (uncounted clones).
+    pub fn v_registry(&self) -> Vec<GcNode> {
+        self.with_data(|data: &mut GcCtxData| data.registry.clone())
+    }
+
+    /// Forget registered gc nodes that have been freed.
+    pub fn v_registry_prune(&self) {
+        self.with_data(|data: &mut GcCtxData| data.registry.retain(|n| !n.v_freed()))
+    }
+
+    fn v_register(&self, node: &GcNode) {
+        self.with_data(|data: &mut GcCtxData| data.registry.push(node.clone()));
+    }
+}
+
+#[cfg(feature = "verif_hooks")]
+impl GcNode {
+    pub fn v_id(&self) -> u32 {
+        self.id
+    }
+
+    pub fn v_name(&self) -> NodeName {
+        self.name
+    }
+
+    pub fn v_freed(&self) -> bool {
+        self.data.freed.load(Ordering::SeqCst)
+    }
+
+    pub fn v_buffered(&self) -> bool {
+        self.data.buffered.load(Ordering::SeqCst)
+    }
+
+    pub fn v_visited(&self) -> bool {
+        self.data.visited.load(Ordering::SeqCst)
+    }
+
+    pub fn v_ref_count_adj(&self) -> u32 {
+        self.data.ref_count_adj.load(Ordering::SeqCst)
+    }
+
+    /// 0 = Black, 1 = Gray, 2 = Purple, 3 = White
+    pub fn v_color(&self) -> u8 {
+        match self.data.color.get() {
+            Color::Black => 0,
+            Color::Gray => 1,
+            Color::Purple => 2,
+            Color::White => 3,
+        }
     }
 }
